@@ -38,6 +38,7 @@ type Obligation struct {
 	Index    int    // position in VC items
 	ExpectSat bool   // cover query: goal is asserted positively, sat expected
 	Retried   bool   // ran out of time once and was solved again with a larger budget
+	ExtraAssume *Term // case-split retry: one more assumption for this query only
 	Pos      string // source position (informational)
 	Note     string
 	cached   string
@@ -501,7 +502,7 @@ func (ob *Obligation) scriptPlain(opt scriptOpt) string {
 		case itDefRec:
 			var ps []string
 			for _, p := range it.Params {
-				ps = append(ps, fmt.Sprintf("(%s Int)", p.Name))
+				ps = append(ps, fmt.Sprintf("(%s %s)", p.Name, p.Sort))
 			}
 			fmt.Fprintf(&sb, "(define-fun-rec %s (%s) Int %s)\n", it.Name, strings.Join(ps, " "), it.Term)
 		case itAssume:
@@ -568,6 +569,9 @@ func (ob *Obligation) scriptPlain(opt scriptOpt) string {
 				fmt.Fprintf(&sb, "(assert (= %s %s))\n", a, substSyms(it.Term, sub))
 			}
 		}
+	}
+	if ob.ExtraAssume != nil {
+		fmt.Fprintf(&sb, "(assert %s)\n", ob.ExtraAssume)
 	}
 	if ob.Excuse != nil {
 		body := sp.print(ob.Excuse, &sb)
